@@ -16,7 +16,13 @@ RunWf(T, d, vs, run) ==
   IF run.outcome # "ok" THEN "bad:outcome-" \o run.outcome
   ELSE IF run.vars # vs THEN "bad:vars"
   ELSE IF ~Same(T, run.den, d.den) THEN "bad:den"
+  ELSE IF "lst_panic" \in DOMAIN run THEN "bad:listing-panic"
+  ELSE IF "lst" \in DOMAIN run /\ ~ListingOk(T, d.den, run.lst) THEN "bad:listing"
   ELSE "ok"
+\* flat and deep listings coincide when no variable-free sub-expression contains an operator
+ListingsCoincide(d, runs) ==
+  HasConstOpSub(d.den) \/ \A a, b \in 1..Len(runs) :
+     ("lst" \in DOMAIN runs[a] /\ "lst" \in DOMAIN runs[b]) => runs[a].lst = runs[b].lst
 RunMust(run) == IF run.outcome = "err" THEN "ok" ELSE "bad:accepted-" \o run.outcome
 RunFree(run) == IF run.outcome \in {"ok", "err"} THEN "ok" ELSE "bad:" \o run.outcome
 
@@ -41,6 +47,7 @@ Judge(r) ==
       b   == FirstBad(rv, 1)
   IN IF b # 0 THEN <<cls, rv[b], r.runs[b].entry>>
      ELSE IF cls \in {"free", "unspec"} /\ ~Agree(T, r.runs) THEN <<cls, "bad:disagree", "*">>
+     ELSE IF cls = "wf" /\ ~ListingsCoincide(d, r.runs) THEN <<cls, "bad:listings-differ", "*">>
      ELSE <<cls, "ok", "*">>
 
 Verdicts == i <= Len(Rec) => PrintT(<<"V", Rec[i].case>> \o Judge(Rec[i]))
